@@ -262,6 +262,9 @@ func init() {
 		Assumptions: []string{"streams carry no timestamp fields, so compressed headers do not alter content (timestamps are C12's subject)"},
 		Run:         runC13,
 		Replay: func(raw json.RawMessage) (string, error) {
+			if s, ok, err := mixReplay(raw); ok {
+				return s, err
+			}
 			var r c13Replay
 			json.Unmarshal(raw, &r)
 			_, msg := c13Run(r.Prefix, r.Ops)
@@ -274,6 +277,11 @@ func init() {
 }
 
 func runC13(w *vx.W) {
+	mixLen := 3
+	if !w.Quick() {
+		mixLen = 4
+	}
+	mixFamily(w, mixLen)
 	locals := []byte{0, 1, 3, 4, 15}
 	alpha := c13Alphabet(locals)
 	maxLen := 4
